@@ -29,6 +29,7 @@ from sa.fielddeps import stored_from_param
 from sa.pysrc import ClassInfo, dotted
 from sa.report import AnalysisError
 from sa.types import walk_own
+from sa import paths as _P
 
 
 def _calls(node, name):
@@ -303,6 +304,20 @@ def content_type_rules(ctx, prog, ser, pk, spec, ox, rid):
                                   ".%s() compares the key as given, so a differently-cased extension / part name is not found" % (ast.unparse(n)[:60], m),
                                   file=g.file, line=n.lineno)
     ctx.count("case_insensitive_dict_calls", n_use)
+
+
+
+def path_value(pth, e, al):
+    """normalised source of expression e at the end of the path, with names assigned on the path resolved"""
+    env = {}
+    for st in pth.stmts():
+        if isinstance(st, ast.Assign) and len(st.targets) == 1 and isinstance(st.targets[0], ast.Name):
+            env[st.targets[0].id] = st.value
+        elif isinstance(st, ast.AnnAssign) and isinstance(st.target, ast.Name) and st.value is not None:
+            env[st.target.id] = st.value
+    if isinstance(e, ast.Name) and e.id in env:
+        e = env[e.id]
+    return _P.norm(e, al)
 
 
 
@@ -647,14 +662,28 @@ def run(ctx):
     ar = ctrs.methods.get("add_rel")
     newf = ctr.methods.get("new")
     p_ar = [a.arg for a in ar.node.args.args][1:]
-    tm = None
-    for n in ast.walk(ar.node):
-        if isinstance(n, ast.Assign) and isinstance(n.value, ast.IfExp):
-            tm = (n.targets[0].id, dotted(n.value.test), dotted(n.value.body), dotted(n.value.orelse))
-    c_new = [c for c in ast.walk(ar.node) if isinstance(c, ast.Call) and dotted(c.func) == "CT_Relationship.new"]
-    ins = [c for c in ast.walk(ar.node) if isinstance(c, ast.Call) and (dotted(c.func) or "").startswith("self._insert_relationship")]
-    good = bool(tm and tm[1] == p_ar[3] and tm[2] == "RTM.EXTERNAL" and tm[3] == "RTM.INTERNAL" and c_new and ins
-                and [dotted(a) for a in c_new[0].args] == [p_ar[0], p_ar[1], p_ar[2], tm[0]])
+    from sa.desugar import desugar as _desugar
+
+    arx = _desugar(ar.node)
+    aal = P_.aliases(arx)
+    ins = [c for c in ast.walk(arx) if isinstance(c, ast.Call) and (dotted(c.func) or "").startswith("self._insert_relationship")]
+    good, n_new = bool(ins), 0
+    for pth in P_.enum_paths(arx.body):
+        for c in [c for st in pth.stmts() + ([pth.end_node] if pth.end_node is not None else []) for c in ast.walk(st)
+                  if isinstance(c, ast.Call) and dotted(c.func) == "CT_Relationship.new"]:
+            n_new += 1
+            args_ = [path_value(pth, a_, aal) for a_ in c.args]
+            fs = P_.facts(pth, None, aal)
+            ext = P_.implied(fs, lambda a_: a_[0] == "truthy" and a_[1] == p_ar[3] and a_[2] is True)
+            inn = P_.implied(fs, lambda a_: a_[0] == "truthy" and a_[1] == p_ar[3] and a_[2] is False)
+            want_tm = "RTM.EXTERNAL" if ext else "RTM.INTERNAL" if inn else None
+            if len(args_) == 4 and isinstance(c.args[3], ast.IfExp) and dotted(c.args[3].test) == p_ar[3]:
+                # the choice written in place: CT_Relationship.new(..., EXTERNAL if is_external else INTERNAL)
+                if (dotted(c.args[3].body), dotted(c.args[3].orelse)) != ("RTM.EXTERNAL", "RTM.INTERNAL") or args_[:3] != p_ar[:3]:
+                    good = False
+            elif args_ != [p_ar[0], p_ar[1], p_ar[2], want_tm]:
+                good = False
+    good = good and n_new > 0
     if good:
         ctx.ok("R1.3", "CT_Relationships.add_rel", sample={"target_mode": "External iff is_external", "new": "CT_Relationship.new(rId, reltype, target, target_mode)"})
     else:
@@ -702,18 +731,6 @@ def run(ctx):
         if a[3] == "RTM.EXTERNAL":
             return a[4] is ((a[1] == "Eq") != internal)
         return False
-
-    def path_value(pth, e, al):
-        """normalised source of expression e at the end of the path, with names assigned on the path resolved"""
-        env = {}
-        for st in pth.stmts():
-            if isinstance(st, ast.Assign) and len(st.targets) == 1 and isinstance(st.targets[0], ast.Name):
-                env[st.targets[0].id] = st.value
-            elif isinstance(st, ast.AnnAssign) and isinstance(st.target, ast.Name) and st.value is not None:
-                env[st.target.id] = st.value
-        if isinstance(e, ast.Name) and e.id in env:
-            e = env[e.id]
-        return P_.norm(e, al)
 
     fxx = _expand(prog, fxr, local_only=True)
     fal = P_.aliases(fxx)
